@@ -10,7 +10,9 @@ import (
 	"verif/harness/c08"
 	"verif/harness/c09"
 	"verif/harness/c10"
+	"verif/harness/c11"
 	"verif/harness/c12"
+	"verif/harness/c13"
 	"verif/harness/c15"
 	"verif/harness/c16"
 	"verif/harness/c17"
@@ -33,6 +35,7 @@ func init() {
 	reg("c10", "LowHalf", func(a []int64) { c10.LowHalf(int(a[0]), int(a[1])) })
 	reg("c10", "Reads", func(a []int64) { c10.Reads(int(a[0]), int(a[1]), int(a[2]), int(a[3])) })
 	reg("c10", "Writes", func(a []int64) { c10.Writes(int(a[0]), int(a[1]), int(a[2]), int(a[3])) })
+	reg("c11", "Address", func(a []int64) { c11.Address(int(a[0])) })
 	reg("c12", "StepLemma", func(a []int64) { c12.StepLemma(int(a[0]), int(a[1]), int(a[2])) })
 	reg("c12", "RunUntil", func(a []int64) { c12.RunUntil(int(a[0]), int(a[1]), int(a[2])) })
 	reg("c12", "ResetClearsStop", func(a []int64) { c12.ResetClearsStop(int(a[0])) })
@@ -44,6 +47,9 @@ func init() {
 	reg("c05", "Console", func(a []int64) { c05.Console(int(a[0])) })
 	reg("c05", "BusPages", func(a []int64) { c05.BusPages(int(a[0])) })
 	reg("c05", "PakPages", func(a []int64) { c05.PakPages(int(a[0])) })
+	reg("c13", "Route", func(a []int64) { c13.Route(int(a[0])) })
+	reg("c13", "Misaligned", func(a []int64) { c13.Misaligned(int(a[0])) })
+	reg("c13", "Dump", func(a []int64) { c13.Dump(int(a[0]), int(a[1]), int(a[2])) })
 	reg("c15", "Listing", func(a []int64) { c15.Listing(a[0], int(a[1]), int(a[2]), int(a[3]), int(a[4])) })
 	reg("c16", "Split", func(a []int64) { c16.Split(a[0], int(a[1]), int(a[2]), int(a[3]), int(a[4])) })
 	reg("c16", "AppendTooBig", func(a []int64) { c16.AppendTooBig(int(a[0]), int(a[1]), int(a[2]), int(a[3])) })
